@@ -38,6 +38,25 @@ STRENGTHENED = {
     "C02-agent4-2": "would have been MISSED (clauses were lists or tuples); caught after clause rows / the whole formula are also passed as one-shot iterators",
     "C02-agent4-3": "would have been MISSED; caught after assumptions are also passed as a generator",
     "C17-agent4-1": "would have been MISSED (lists were shared between the variants of a case but never edited); caught after a second instance is solved through the same list objects edited in place",
+    "C02-agent5-2": "MISSED at first (needs ~4500 conflicts); caught after the VSIDS decay literal became a simulator knob (0.5 ... 1e-25: rescaling code and infinite activities are reached within a few conflicts) and auxiliary-variable gadgets were added to small and medium formulas",
+    "C02-agent5-3": "MISSED at first (at most a few hundred variables); caught after formulas with a propagation chain of 1200-3000 literals below a two-level conflict were added",
+    "C04-agent5-1": "MISSED at first (all values were below 4); caught after 8 % of the boxed programs are shifted by 1e5-1e6 per integer variable (same fractional parts, exact oracle enumerates the shifted box)",
+    "C04-agent5-2": "MISSED at first (no solve needed 10 000 pivots); caught after a few subset-sum knapsacks with 12-18 items per quick run (thousands of nodes, bitset DP oracle) were added",
+    "C04-agent5-3": "MISSED, and still missed: a slice of degenerate cones at the origin (8 % quick, 20 % thorough) was added, but a cycling instance is a 1-in-50 000 event even among those; 212 000 thorough runs did not hit one. Recorded as a blind spot of seeded sampling",
+    "C09-agent5-1": "MISSED at first (2 of 20 000 random instances); caught after layered unit-capacity networks with crossing lanes and demand 2-4 were added (5 % of the runs)",
+    "C09-agent5-2": "MISSED at first (networks had at most 40 arcs); caught after transshipment networks with 55-130 lanes, several plants/customers, potentials-based negative costs and meaningful arc orders were added (0.6 % of the runs, 9-23 hits per quick run)",
+    "C09-agent5-3": "MISSED at first; caught after pipeline DAGs with rebates (optional stages, hub, warehouse fan-out) were added: labels that improve again and again within one shortest-path computation",
+    "C12-agent5-1": "would have been MISSED (at most 3n+1 edges); caught after a slice of dense edge lists (256-650 edges, 8-70 nodes) was added",
+    "C12-agent5-2": "would have been MISSED (the shared list was never edited); caught after the caller replaces one entry of the shared list in place and every route is asked again (`stale_after_edit`)",
+    "C12-agent5-3": "would have been MISSED (tol=0 was not generated and the knife-edge excuse covered max_diff == tol == 0); caught after tol=0.0 was added and the excuse was limited to tol > 0",
+    "C15-agent5-1": "would have been MISSED (at most a few dozen nodes); caught after graphs of 520-1100 nodes made of many small components were added (the definitional oracle works per component)",
+    "C15-agent5-2": "would have been MISSED (tol=0.0 was not generated); caught after it was, with the rule that OPTIMAL at tol=0 claims an exact fixed point",
+    "C15-agent5-3": "would have been MISSED (the mismatch is below 1e-7 and needs thousands of edges); caught after louvain runs on 800/2000-node graphs with ~3n edges were added (step budget now scales with size)",
+    "C19-agent5-1": "MISSED at first (table values were small ints / dyadics); caught after table landscapes with exact integers around 2**60 were added",
+    "C19-agent5-2": "MISSED at first; caught after landscapes whose whole range is ~1e-17 (multiples of 2^-60), large offsets with 1/1024 differences, and power-of-two rescaled functions were added",
+    "C19-agent5-3": "MISSED at first (move labels were always (from, to) pairs); caught after arbitrary hashable move labels (None, bare targets, mixed) were generated",
+    "C20-agent5-1": "would have been MISSED (at most 1000 elements, random unions); caught after union chains of 1200-4000 elements were added",
+    "C20-agent5-2": "would have been MISSED (results were only read); caught after the `consume_components` operation (the caller empties what get_components / component_sizes returned) was added",
     "C17-agent-3": "MISSED at first (only integer roll widths were generated); caught after fractional roll widths were added",
 }
 WHAT = {}
@@ -74,10 +93,12 @@ def main():
         rows.append(f"| {name} | {m['property']} | {desc} | {conf} | {m.get('verdict')} ({m.get('check_wall_s')} s) | {cls} | {STRENGTHENED.get(name, '')} |")
     n_all = len(rows) - 2
     n_missed = sum(1 for k, v in STRENGTHENED.items() if "MISSED" in v and os.path.exists(os.path.join(VERIF, "seeded", k)))
+    n_still = sum(1 for k, v in STRENGTHENED.items() if v.startswith("MISSED, and still missed:") and os.path.exists(os.path.join(VERIF, "seeded", k)))
     rows.append("")
     rows.append(f"Totals: {n_all} confirmed seeded changes; {n_all - n_missed} were caught by the quick check as it stood when the change "
-                f"arrived, {n_missed} were missed (or would have been) and led to the strengthening described in the last column; all "
-                f"{n_all} are caught now and are re-run by `./simcheck selftest sensitivity`.")
+                f"arrived, {n_missed} were missed (or would have been) and led to the strengthening described in the last column; "
+                f"{n_all - n_still} are caught now and are re-run by `./simcheck selftest sensitivity`"
+                f"{'' if not n_still else f'; {n_still} is still missed (see its note)'}.")
     table = "\n".join(rows)
     p = os.path.join(VERIF, "DESIGN.md")
     s = open(p).read()
